@@ -14,10 +14,11 @@
 (***************************************************************************)
 EXTENDS Integers, FiniteSets, Sequences, TLC
 
-CONSTANTS T,        \* number of worker threads (numMaxThreads >= 2)
-          Counts,   \* sequence of task counts, one per execute() call
+CONSTANTS Configs,  \* set of [t |-> number of worker threads (>= 2), counts |-> sequence of task
+                    \*         counts, one per execute() call]
           DEV       \* deviations (faithful: {})
 
+VARIABLES T, Counts \* the configuration in play (constant along a behaviour)
 Worker == 1..T
 Main == 0
 NR == Len(Counts)
@@ -27,10 +28,12 @@ VARIABLES pcM, round, spawned, mutex, finished, running, curTask, curCount, wait
           done, inited, finishCalls, retWaiting
 vars == <<pcM, round, spawned, mutex, finished, running, curTask, curCount, waiting,
           pcW, idx, cnt, tsk, runWait, mainWait, done, inited, finishCalls, retWaiting>>
+avars == <<vars, T, Counts>>
 
 Free == -1
 
-Init ==
+InitFor(c) ==
+  /\ T = c.t /\ Counts = c.counts
   /\ pcM = "idle" /\ round = 1 /\ spawned = FALSE /\ mutex = Free /\ finished = FALSE
   /\ running = [w \in Worker |-> FALSE] /\ curTask = 0 /\ curCount = 0 /\ waiting = 0
   /\ pcW = [w \in Worker |-> "unborn"] /\ idx = [w \in Worker |-> 0]
@@ -40,10 +43,20 @@ Init ==
   /\ inited = [r \in 1..NR |-> {}]
   /\ finishCalls = [r \in 1..NR |-> 0]
   /\ retWaiting = [r \in 1..NR |-> -1]
+Init == \E c \in Configs : InitFor(c)
 
 \* ------------------------------------------------------------------ main
+MInline ==  \* numMaxThreads < 2: the task is run directly by the caller
+  /\ pcM = "idle" /\ round <= NR /\ T < 2
+  /\ done' = [done EXCEPT ![round] = [i \in DOMAIN done[round] |-> @[i] + 1]]
+  /\ inited' = [inited EXCEPT ![round] = {1}]
+  /\ finishCalls' = [finishCalls EXCEPT ![round] = 1]
+  /\ retWaiting' = [retWaiting EXCEPT ![round] = 1]
+  /\ round' = round + 1
+  /\ UNCHANGED <<pcM, spawned, mutex, finished, running, curTask, curCount, waiting, pcW, idx, cnt, tsk,
+                 runWait, mainWait>>
 MStart ==   \* execute(task, times): spawn threads on first use
-  /\ pcM = "idle" /\ round <= NR
+  /\ pcM = "idle" /\ round <= NR /\ T >= 2
   /\ pcM' = "lock"
   /\ IF spawned THEN UNCHANGED <<spawned, pcW>>
      ELSE spawned' = TRUE /\ pcW' = [w \in Worker |-> "loophead"]
@@ -173,35 +186,40 @@ WIncr(w) ==      \* finish(); ++waitingThreadCount; maybe notify_one   (holding 
   /\ UNCHANGED <<pcM, round, spawned, finished, running, curTask, curCount, idx, cnt, tsk,
                  runWait, done, inited, retWaiting>>
 
-Terminated == pcM = "done" /\ UNCHANGED vars
+Terminated == pcM = "done" /\ UNCHANGED <<pcM, round, spawned, mutex, finished, running, curTask, curCount,
+     waiting, pcW, idx, cnt, tsk, runWait, mainWait, done, inited, finishCalls, retWaiting>>
 
-Next ==
-  \/ MStart \/ MLock \/ MPublish \/ MAwait \/ MWake \/ MSpurious \/ MShutLock \/ MShut \/ MJoin
+Step ==
+  \/ MInline \/ MStart \/ MLock \/ MPublish \/ MAwait \/ MWake \/ MSpurious \/ MShutLock \/ MShut \/ MJoin
   \/ \E w \in Worker : WLoopHead(w) \/ WLock(w) \/ WPred(w) \/ WWake(w) \/ WSpurious(w) \/ WChk(w)
                        \/ WInit(w) \/ WExec(w) \/ WClr(w) \/ WIncrLock(w) \/ WIncr(w)
   \/ Terminated
+Next == Step /\ UNCHANGED <<T, Counts>>
 
-Fairness == /\ WF_vars(MStart) /\ WF_vars(MLock) /\ WF_vars(MPublish) /\ WF_vars(MAwait)
-            /\ WF_vars(MWake) /\ WF_vars(MShutLock) /\ WF_vars(MShut) /\ WF_vars(MJoin)
-            /\ \A w \in Worker : /\ WF_vars(WLoopHead(w)) /\ SF_vars(WLock(w)) /\ WF_vars(WPred(w))
-                                 /\ WF_vars(WWake(w)) /\ WF_vars(WChk(w)) /\ WF_vars(WInit(w))
-                                 /\ WF_vars(WExec(w)) /\ WF_vars(WClr(w)) /\ SF_vars(WIncrLock(w))
-                                 /\ WF_vars(WIncr(w))
-Spec == Init /\ [][Next]_vars
-FairSpec == Spec /\ Fairness /\ SF_vars(MLock) /\ SF_vars(MWake) /\ SF_vars(MShutLock)
+Fairness ==
+  /\ WF_avars((MInline \/ MStart \/ MPublish \/ MAwait \/ MShut \/ MJoin) /\ UNCHANGED <<T, Counts>>)
+  /\ SF_avars((MLock \/ MWake \/ MShutLock) /\ UNCHANGED <<T, Counts>>)
+  /\ \A w \in 1..4 :
+       /\ WF_avars(w \in Worker /\ (WLoopHead(w) \/ WPred(w) \/ WWake(w) \/ WChk(w) \/ WInit(w) \/ WExec(w)
+                                     \/ WClr(w) \/ WIncr(w)) /\ UNCHANGED <<T, Counts>>)
+       /\ SF_avars(w \in Worker /\ (WLock(w) \/ WIncrLock(w)) /\ UNCHANGED <<T, Counts>>)
+Spec == Init /\ [][Next]_avars
+FairSpec == Spec /\ Fairness
 
 -----------------------------------------------------------------------------
-\* shared-variable accesses of the NEXT step of each thread
+\* shared-variable accesses of the NEXT step of each thread.  `finished` is a std::atomic<bool>
+\* (atomic accesses never constitute a data race); DEV PlainFinished = the plain bool it used to be.
+FinAcc(rw) == IF "PlainFinished" \in DEV THEN {<<"finished", rw>>} ELSE {}
 AccM ==
   CASE pcM = "publish" -> {<<"curTask", "W">>, <<"curCount", "W">>, <<"waiting", "W">>} \cup
                           {<<"running", w, "W">> : w \in Worker}
     [] pcM = "await"   -> {<<"waiting", "R">>}
-    [] pcM = "shut"    -> {<<"finished", "W">>} \cup {<<"running", w, "W">> : w \in Worker}
+    [] pcM = "shut"    -> FinAcc("W") \cup {<<"running", w, "W">> : w \in Worker}
     [] OTHER -> {}
 AccW(w) ==
-  CASE pcW[w] = "loophead" -> {<<"finished", "R">>}
+  CASE pcW[w] = "loophead" -> FinAcc("R")
     [] pcW[w] = "pred"     -> {<<"running", w, "R">>}
-    [] pcW[w] = "chk"      -> {<<"finished", "R">>}
+    [] pcW[w] = "chk"      -> FinAcc("R")
     [] pcW[w] = "init"     -> {<<"curTask", "R">>, <<"curCount", "R">>}
     [] pcW[w] = "clr"      -> {<<"running", w, "W">>}
     [] pcW[w] = "incr"     -> {<<"waiting", "R">>, <<"waiting", "W">>, <<"curTask", "R">>}
